@@ -26,6 +26,10 @@ import (
 //	run      the Lua body runs here (only inside executor.call / the LuaJIT view wrapper)
 //	cb       C code invokes Go callback A
 //	defer    registers deferred body C of this activation;  undefer removes it
+//	nl       nil-ness of a tracked variable (slot C): Op "=" value S | "=?" unknown | "cp" copy of slot S;
+//	         tested by  test nl (slot S) ==/!= nil  (error / refusal results of inlined helpers)
+//	ctx      a vmContext value has been constructed
+//	throw    Lua error raised in a C shim (unwinds to the calling Lua frame)
 //	unknown  call of a function the extractor cannot classify (A = name)
 //	skip     no effect (removed by simplification)
 //	ret      return from the process (A = "refuse" when it is an error return of a guard, informative only)
